@@ -393,7 +393,7 @@ func (k Keeper) RaiseAndResolveChallenge(ctx sdk.Context, params *ChallengeParam
 	}
 	// check Task
 	if hex.EncodeToString(taskInfo.Hash) != hex.EncodeToString(params.TaskHash) {
-		return errorsmod.Wrap(err, fmt.Sprintf("error Task hasn't been responded to yet: %s", params.TaskContractAddress))
+		return errorsmod.Wrap(types.ErrInconsistentParams, fmt.Sprintf("task hash does not match the task recorded at: %s", params.TaskContractAddress))
 	}
 	// check Task result
 	res, err := k.GetTaskResultInfo(ctx, params.OperatorAddress.String(), params.TaskContractAddress.String(),
